@@ -340,10 +340,12 @@ def Sys.invoke (s : Sys) (cb : CbRef) (res : Option Nat) (err : Fail) : Sys :=
   | .remote n r => { s with hist := .sent n r (.err err) :: s.hist }
 
 /-- the current call of thread `t` and its plan -/
-def Sys.current (s : Sys) (t : Nat) : Option (CallId × Plan) :=
-  match (s.thr t).prog[(s.thr t).next]? with
+def Thread.cur (th : Thread) (t : Nat) : Option (CallId × Plan) :=
+  match th.prog[th.next]? with
   | none => none
-  | some sp => some (⟨t, (s.thr t).next⟩, planOf sp)
+  | some sp => some (⟨t, th.next⟩, planOf sp)
+
+def Sys.current (s : Sys) (t : Nat) : Option (CallId × Plan) := (s.thr t).cur t
 
 def Thread.advance (th : Thread) : Thread := { th with next := th.next + 1, phase := .start }
 
@@ -362,15 +364,19 @@ def Sys.afterPut (s : Sys) (t : Nat) (mode : Mode) : Sys :=
   | .sync _ => { s with thr := upd s.thr t { s.thr t with phase := .waiting } }
   | _ => { s with thr := upd s.thr t (s.thr t).advance }
 
-/-- phase `built`: `_applyCommand` — `put_nowait`, or on `Full` the own callback gets `QUEUE_FULL`
-(in the caller's thread; nobody else holds that callback) -/
+/-- `_applyCommand(command, callback)`: `put_nowait`; on `Full`, `__callErrCallback(QUEUE_FULL, callback)`
+runs in the calling thread (nobody else holds that callback).  `okEv` / `fullEv` are the ghost events. -/
+def Sys.applyCommand (s : Sys) (e : Entry) (okEv fullEv : Ev) : Sys :=
+  match s.q.putNowait e with
+  | some q' => { s with q := q', hist := okEv :: s.hist }
+  | none => ({ s with hist := fullEv :: s.hist } : Sys).invoke e.cb none .queueFull
+
+/-- phase `built`: the wrapper calls `_applyCommand` with the packed command and the call's callback
+(`None`, the user's function, or the call's own `AsyncResult.onResult`) -/
 def Sys.putStep (s : Sys) (t : Nat) : Option Sys :=
   match s.current t with
   | some (c, .replicate _ mode) =>
-      let cb := mode.cbRef c
-      match s.q.putNowait ⟨.call c, cb⟩ with
-      | some q' => some (({ s with q := q', hist := .enq c :: s.hist } : Sys).afterPut t mode)
-      | none => some ((({ s with hist := .full c :: s.hist } : Sys).invoke cb none .queueFull).afterPut t mode)
+      some ((s.applyCommand ⟨.call c, mode.cbRef c⟩ (.enq c) (.full c)).afterPut t mode)
   | _ => none
 
 /-- phase `waiting`, `event.wait` returned true: read `error`, `result` -/
@@ -447,12 +453,14 @@ def Sys.answer (s : Sys) (j : Nat) (err : Fail) : Option Sys :=
       let res := if err = .success then some (s.resultOf p.e.cmd) else none
       some (({ s with pend := s.pend.eraseIdx j } : Sys).invoke p.e.cb res err)
 
+/-- the `callback` of a forwarded command: `(node, request_id)` or `None` -/
+def cbOfOpt : Option (Nat × Nat) → CbRef
+  | some (n, r) => .remote n r
+  | none => .none
+
 /-- tick thread, `__onMessageReceived('apply_command')`: `_applyCommand(command, (node, req) | None)` -/
 def Sys.remotePut (s : Sys) (k : Nat) (cb : Option (Nat × Nat)) : Sys :=
-  let cbr : CbRef := match cb with | some (n, r) => .remote n r | none => .none
-  match s.q.putNowait ⟨.foreign k, cbr⟩ with
-  | some q' => { s with q := q', hist := .renq k :: s.hist }
-  | none => ({ s with hist := .rfull k :: s.hist } : Sys).invoke cbr none .queueFull
+  s.applyCommand ⟨.foreign k, cbOfOpt cb⟩ (.renq k) (.rfull k)
 
 /-- scheduler choices = atomic actions -/
 inductive Label where
